@@ -8,14 +8,14 @@ from ..prng import Rng, derive
 BASE_W = {'new': 6, 'set': 5, 'setmany': 2, 'setmix': 2, 'seq_probe': 2, 'late_link': 1, 'rel': 4, 'add': 3, 'remove': 3, 'clear': 1, 'assign': 2, 'create_in': 2,
           'del': 3, 'set_none': 1, 'setpk': 1, 'flush': 2, 'commit': 1, 'rollback': 1, 'seq_in': 2, 'new_rawfk': 1,
           'r_attr': 2, 'r_pk': 1, 'r_get': 1, 'r_exists': 1, 'r_select': 1, 'r_count': 1, 'r_aggr': 1, 'r_coll': 2,
-          'r_todict': 1, 'r_getrel': 1, 'oflush': 1, 'fail_probe': 2, 'partial': 1, 'jedit': 2}
+          'r_todict': 1, 'r_getrel': 1, 'oflush': 1, 'fail_probe': 2, 'partial': 1, 'jedit': 2, 'r_proxy': 1}
 
 FOCUS = {
     'default': {},
     'reads': {'r_attr': 6, 'r_pk': 3, 'r_get': 4, 'r_exists': 2, 'r_select': 4, 'r_count': 3, 'r_aggr': 2, 'r_coll': 6,
               'r_todict': 2, 'flush': 1, 'r_getrel': 4, 'fail_probe': 3},
     'delete': {'del': 8, 'new': 8, 'rel': 5, 'add': 4, 'create_in': 4, 'bulk_del': 2, 'fail_probe': 9},
-    'keys': {'new': 9, 'set': 8, 'setmany': 4, 'del': 3, 'setpk': 2},
+    'keys': {'new': 9, 'set': 8, 'setmany': 4, 'del': 3, 'setpk': 2, 'r_proxy': 4, 'r_pk': 3},
     'fail': {'fail_probe': 8, 'new': 8, 'set': 6, 'setmany': 5, 'setmix': 6, 'rel': 6, 'del': 6, 'set_none': 2, 'setpk': 2, 'assign': 3, 'remove': 4},
     'rels': {'fail_probe': 3, 'setmix': 4, 'seq_probe': 6, 'rel': 8, 'add': 6, 'remove': 5, 'assign': 4, 'clear': 2, 'create_in': 4, 'r_attr': 4, 'r_coll': 4,
              'seq_in': 6},
